@@ -44,7 +44,7 @@ func (s *c10) Start(r *kit.Rng, cfg map[string]int64) {
 	if r == nil {
 		return
 	}
-	s.maxSteps = r.Range(3, 24)
+	s.maxSteps = r.Range(3, 24*kit.Depth)
 	cfg["max_steps"] = int64(s.maxSteps)
 	for i, n := 0, r.Range(3, 6); i < n; i++ {
 		s.pool = append(s.pool, r.Bytes(r.Range(1, 33)))
